@@ -3,3 +3,5 @@ open Neutrino.Disp
 #print axioms C12_trans_peerRanking
 #print axioms C12_trans_score_moves
 #print axioms C12_trans_scoreOf
+#print axioms C12_trans_workQueue_Less
+#print axioms C12_trans_workQueue_Less_strict
